@@ -308,3 +308,72 @@ def r01_6(ctx, rr):
             rr.ob(ok, key=key + str(ok), sample={"fn": b.key, "read": show(F, n), "established": known})
             if not ok:
                 rr.violate(key, "%s reads the backend word `%s` without `index < len.div_ceil(64)` established (established: %s): whole words beyond the bit vector are counted" % (b.key, show(F, n), "; ".join(known) or "nothing"), F.loc(n))
+
+
+@rule("R01.7", props=["C01"], floor=5, title="RankSmall::new stores block and sub-block counters relative to the 2^32-bit chunk's upper count, as rank_unchecked adds them back (upper + absolute + rel)")
+def r01_7(ctx, rr):
+    """Reader: rank = upper_counts[chunk] + counts[block].absolute + counts[block].rel(sub) + in-word rank.
+    Writer: absolute = ones so far - upper count; rel = ones so far - upper count - absolute. Dropping the upper
+    count from either is invisible below 2^32 bits."""
+    F = ctx.F()
+    news = [b for b in F.fns() if b.name == "new" and b.file.endswith("rank_sel/rank_small.rs") and (b.impl_adt or "").endswith("RankSmall")]
+    if len(news) < 5:
+        raise AnchorMissing("expected the five RankSmall::new bodies, found %d" % len(news))
+    for b in news:
+        # the local pushed onto the vector that becomes the field `upper_counts`
+        upper_vec = None
+        for n in walk(b.body):
+            if n.get("k") == "Struct" and range_of(F, n) is None:
+                for f in n["fields"]:
+                    if f["name"] == "upper_counts":
+                        ps = [x for x in walk(f["e"]) if x.get("k") == "Path" and x.get("res") == "local"]
+                        if ps:
+                            upper_vec = ps[0]["id"]
+        # follow `let upper_counts = upper_counts.into_boxed_slice()`
+        for _ in range(3):
+            ls = [x for x in walk(b.body) if x.get("k") == "LetStmt" and x["pat"].get("k") == "PBind" and x["pat"]["id"] == upper_vec and "init" in x]
+            if ls and ls[0]["init"].get("k") == "MethodCall" and ls[0]["init"]["name"] in ("into_boxed_slice", "into"):
+                ps = [x for x in walk(ls[0]["init"]) if x.get("k") == "Path" and x.get("res") == "local"]
+                if ps:
+                    upper_vec = ps[0]["id"]
+                    continue
+            break
+        pushes = [n for n in walk(b.body) if n.get("k") == "MethodCall" and n["name"] == "push" and n["recv"].get("k") == "Path" and n["recv"].get("id") == upper_vec]
+        if len(pushes) != 1 or pushes[0]["args"][0].get("k") != "Path":
+            raise AnchorMissing("%s: could not identify the upper count (one push of a local onto upper_counts)" % b.key)
+        U = pushes[0]["args"][0]["id"]
+
+        def mentions_id(e, lid, depth=0):
+            for x in walk(e):
+                if x.get("k") == "Path" and x.get("res") == "local":
+                    if x.get("id") == lid:
+                        return True
+                    if depth < 2:
+                        ls = [y for y in walk(b.body) if y.get("k") == "LetStmt" and y["pat"].get("k") == "PBind" and y["pat"]["id"] == x.get("id") and "init" in y]
+                        if ls and mentions_id(ls[0]["init"], lid, depth + 1):
+                            return True
+            return False
+
+        def mentions_field(e, name, depth=0):
+            for x in walk(e):
+                if x.get("k") == "Field" and x["name"] == name:
+                    return True
+                if x.get("k") == "Path" and x.get("res") == "local" and depth < 2:
+                    ls = [y for y in walk(b.body) if y.get("k") == "LetStmt" and y["pat"].get("k") == "PBind" and y["pat"]["id"] == x.get("id") and "init" in y]
+                    if ls and mentions_field(ls[0]["init"], name, depth + 1):
+                        return True
+            return False
+        abs_asg = [n for n in walk(b.body) if n.get("k") == "Assign" and n["l"].get("k") == "Field" and n["l"]["name"] == "absolute"]
+        rels = [n for n in walk(b.body) if n.get("k") == "MethodCall" and n["name"] == "set_rel"]
+        rr.instances += 1
+        ok_a = len(abs_asg) == 1 and mentions_id(abs_asg[0]["r"], U) and any(x.get("k") == "Binary" and x["op"] == "-" for x in walk(abs_asg[0]["r"]))
+        key = "%s:absolute-relative-to-upper" % short_fn(b.key)
+        rr.ob(ok_a, key=key)
+        if not ok_a:
+            rr.violate(key, "%s: the block counter `absolute` must be the ones so far minus the upper count of the 2^32-bit chunk (rank_unchecked adds the upper count back)" % b.key, F.loc(abs_asg[0]) if abs_asg else b.span)
+        rr.instances += 1
+        ok_r = bool(rels) and all(mentions_id(n["args"][1], U) and mentions_field(n["args"][1], "absolute") for n in rels)
+        key = "%s:rel-relative-to-upper-and-absolute" % short_fn(b.key)
+        rr.ob(ok_r, key=key)
+        if not ok_r:
+            rr.violate(key, "%s: a sub-block counter must be the ones so far minus the upper count minus the block's absolute counter (`past_ones - upper_count - absolute`); rank_unchecked computes upper + absolute + rel, so dropping one of the two terms makes every rank beyond the first 2^32 bits (or the first sub-block) wrong" % b.key, F.loc(rels[0]) if rels else b.span)
